@@ -4,6 +4,7 @@ import (
 	"bytes"
 	"errors"
 	"fmt"
+	"math"
 	"os"
 	"os/exec"
 	"strings"
@@ -141,6 +142,44 @@ func streamForward(rep *Report, tier string, seed uint64) {
 										Real: b01(s1.justV) + " " + hx([]byte(s1.format)), Nontriv: true, Kind: "mf"})
 								}
 							}
+							// (3) a Formatter reached inside a container, after other elements were printed
+							// under the same directive, sees the state the directive gave
+							if vb != "T" && vb != "p" && vb != "w" {
+								before := nestBefore[(vi+m)%len(nestBefore)]
+								keys := map[string][2]string{}
+								for _, impl := range []string{"fmt", "redact"} {
+									var direct, nested []probeState
+									a1 := append(append([]interface{}{}, star...), probe{&direct})
+									var cont interface{} = []interface{}{before, probe{&nested}}
+									if (vi+m)%3 == 1 {
+										cont = struct {
+											A interface{}
+											B fmt.Formatter
+										}{before, probe{&nested}}
+									}
+									a2 := append(append([]interface{}{}, star...), cont)
+									if impl == "fmt" {
+										_ = fmt.Sprintf(d, a1...)
+										_ = fmt.Sprintf(d, a2...)
+									} else {
+										_ = redact.Sprintf(d, a1...)
+										_ = redact.Sprintf(d, a2...)
+									}
+									k := [2]string{"-", "-"}
+									if len(direct) == 1 {
+										k[0] = direct[0].key() + " " + direct[0].format
+									}
+									if len(nested) == 1 {
+										k[1] = nested[0].key() + " " + nested[0].format
+									}
+									keys[impl] = k
+								}
+								// (fmt itself zeroes width and precision after a recovered panic; what matters is
+								// that redact's State agrees with fmt's wherever the two agree on the direct call)
+								if keys["fmt"][0] == keys["redact"][0] && keys["fmt"][1] != keys["redact"][1] {
+									orc = append(orc, fmt.Sprintf("C14:Formatter inside a container after %v under %q sees %s under redact, %s under fmt", before, d, keys["redact"][1], keys["fmt"][1]))
+								}
+							}
 							// (2) wrappers are transparent under the standard fmt
 							if vb != "T" && vb != "p" && vb != "w" {
 								op := operands[(vi+m)%len(operands)]
@@ -162,6 +201,12 @@ func streamForward(rep *Report, tier string, seed uint64) {
 			}
 		})
 }
+
+var nestBefore = []interface{}{math.NaN(), math.Inf(1), 1.5, -2, "s", nil, complex(math.NaN(), 1), true, []byte("b"), errors.New("e"), strg{"q"}, panicStr{}, 'x', uint8(3)}
+
+type panicStr struct{}
+
+func (panicStr) String() string { panic("boom") }
 
 func wpTok(v int, ok bool) string {
 	if !ok {
@@ -415,7 +460,9 @@ func probeCalls() []probeCall {
 		}},
 		{"width-state", func() string { return string(redact.Sprintf("%v|%v", fmtr{"a"}, fmtr{"b"})) }},
 		{"sf", func() string { return string(redact.Sprint(safeFmtr{"s", "u"})) }},
-		{"unsafe-safe", func() string { return string(redact.Sprint(redact.Unsafe(redact.Safe("x")), redact.Safe(redact.Unsafe("y")))) }},
+		{"unsafe-safe", func() string {
+			return string(redact.Sprint(redact.Unsafe(redact.Safe("x")), redact.Safe(redact.Unsafe("y"))))
+		}},
 	}
 }
 
